@@ -133,6 +133,16 @@ var (
 	verifYieldFn   atomic.Pointer[func()]
 )
 
+// Parse meter: expressions evaluated by all parsers, and parsers built, since the last reset.
+var (
+	VerifParseSteps  atomic.Int64
+	VerifParsersMade atomic.Int64
+)
+
+func verifParseTick() { VerifParseSteps.Add(1) }
+
+func verifParserMade() { VerifParsersMade.Add(1) }
+
 // VerifCeilingHit is the panic value raised when the armed ceiling is exceeded.
 type VerifCeilingHit struct{ Ops, Rolls int64 }
 
@@ -140,6 +150,8 @@ type VerifCeilingHit struct{ Ops, Rolls int64 }
 func VerifMeterReset(ceiling int64) {
 	VerifOpsDone.Store(0)
 	VerifRollsDone.Store(0)
+	VerifParseSteps.Store(0)
+	VerifParsersMade.Store(0)
 	VerifCeiling.Store(ceiling)
 }
 
